@@ -40,7 +40,9 @@ type Time time.Time
 func NewTimeFromTimeSinceGPSEpoch(sinceEpoch time.Duration) Time {
 	t := gpsEpochTime.Add(sinceEpoch)
 	for _, ls := range leapSecondsTable {
-		if ls.Time.Before(t) {
+		// ls.Time is the last regular UTC second (23:59:59) before the leap
+		// second, the new offset applies from the next UTC second onwards.
+		if !t.Before(ls.Time.Add(time.Second)) {
 			t = t.Add(-ls.Duration)
 		}
 	}
@@ -53,7 +55,9 @@ func NewTimeFromTimeSinceGPSEpoch(sinceEpoch time.Duration) Time {
 func (t Time) TimeSinceGPSEpoch() time.Duration {
 	var offset time.Duration
 	for _, ls := range leapSecondsTable {
-		if ls.Time.Before(time.Time(t)) {
+		// ls.Time is the last regular UTC second (23:59:59) before the leap
+		// second, the new offset applies from the next UTC second onwards.
+		if !time.Time(t).Before(ls.Time.Add(time.Second)) {
 			offset += ls.Duration
 		}
 	}
